@@ -4,7 +4,9 @@ PROP = dict(
     title="Compiled programs compute what the language reference specifies",
     lean_module="AbraProofs.Properties.C02",
     required_theorems=["C02_compile_correct_F0", "C02_compile_correct_F0_program", "C02_d21_witness_repaired",
-                       "C02_break_pops_pending", "C02_reg_roundtrip", "C02_reg_encode_range"],
+                       "C02_break_pops_pending", "C02_reg_roundtrip", "C02_reg_encode_range",
+                       "C02_pending_jump_at_depth", "C02_pending_neg_constant_counted", "C02_pending_operands_wait",
+                       "C02_pending_compound_index", "C02_pending_loop_resets"],
     harness_bin="c02",
     # `sem …` requests (end to end): the model IS the executable specification, so a difference is a concrete failing
     # program — the harness itself asks the model, shrinks the program and reports it through spec_fail (=> VIOLATION with
@@ -20,7 +22,7 @@ PROP = dict(
          "compiler+VM under step budgets {1000},{1},{2,3,7},{100}; output + final value (Runtime::top for int/bool/"
          "string) + error kind compared with Abra.Sem on the generator's own AST; every F0 program additionally: real "
          "unoptimised <main> instruction stream (optimizer-trace hook) vs compileF0, modulo label names and slot "
-         "numbering (the model emits the Pops of break/continue, fix 0c43abd); coverage-guided template families with Rust oracles (harness/src/bg9cov.rs): calls with 31..64 arguments through a generic / member function / function value / lambda, void struct field targets, wildcard annotations, `fs[1](4)` (D91), six D21 regression programs (break/continue in block, tuple, call-argument, `..`, array, struct, unary-minus and match operands, nested for, loop inside a lambda); ten regression programs of repaired defects (D16, D36-D39, D41, N6, N7, D59, D71) must behave as "
+         "numbering (the model emits the Pops of break/continue, fix 0c43abd); pending-jump family (harness/src/bg9cov.rs): the jump-carrying block `{ if c { break|continue } else { }; v }` as the operand of 66 constructs - every place where values wait on the operand stack or the translator pushes/consumes one by hand: binary operators and `..` at int/float/string/bool, the constant of unary minus on int AND float (also nested), not, if condition/branch, both operands of or/and, match scrutinee (int/string/bool/tuple) and arms, call arguments in every position incl. after a void argument and at float, method receiver/argument, function-value argument and callee index, tuple/array/struct/variant components after void ones, unwrap operand, index read, let/assignment/expression statement, `x op= e` at int and float, `a[i] = e` / `a[i] op= e` on arrays and on a user Index with the jump in the array, the index and the right-hand side, `o.f = e` / `o.f op= e` with the jump in object and right-hand side incl. a void field, push argument, the condition of an inner while and the iterable of an inner for (jump of the ENCLOSING loop), an inner loop with its own jump, the same inside a lambda, an array literal of 65538 elements with the jump beyond element 65535 - each under while / for over an array / for over a range x break / continue x operand / statement placement x <main> / function (quick: 397 programs, thorough: 794), the loop nested in `100 + { loop; acc }` so that a leaked or over-popped slot changes the printed value; oracle 1: expected output computed in Rust; oracle 2 (`pending ...`): the number of Pops the real translator emits for every break/continue (unoptimised assembly, instructions carry their source line) against the Lean model Abra.Pending of the true operand-stack depth - flags a missing or surplus count even where the value happens to survive; coverage-guided template families with Rust oracles (harness/src/bg9cov.rs): calls with 31..64 arguments through a generic / member function / function value / lambda, void struct field targets, wildcard annotations, `fs[1](4)` (D91), six D21 regression programs (break/continue in block, tuple, call-argument, `..`, array, struct, unary-minus and match operands, nested for, loop inside a lambda); ten regression programs of repaired defects (D16, D36-D39, D41, N6, N7, D59, D71) must behave as "
          "the reference says (spec_fail otherwise, hist keys regression:*) and their shapes are unconditionally in the stream; the three former D21 witnesses are hard regression programs (105 / 105 / 6); non-trivial = program with output, an error, or a jump in its code",
     nontrivial=lambda req, imp: (req.startswith("sem") and (imp.startswith("error") or not imp.endswith(" -")))
                                 or (req.startswith("cgen") and "jump" in imp),
@@ -41,6 +43,10 @@ PROP = dict(
         "the template families of harness/src/bg9cov.rs (calls with >= 32 arguments in generic/member/function-value form, void struct "
         "field targets, wildcard annotations) use constructs outside the generator AST: their oracle is the expected output "
         "computed in Rust from the language reference, not Abra.Sem",
+        "Abra.Pending (lean/AbraModel/Pending.lean) is a hand-written model of how many operands each construct has on the stack while its "
+        "sub-expressions run, written against the emitted instruction sequences (it covers constructs outside F0 - floats, match, calls, "
+        "index/field assignment forms, for, lambdas); for F0 it agrees with compE/compS by construction (C02_pending_jump_at_depth), the "
+        "agreement on whole F0 expressions is not proved",
         "DepthSafe is no longer a hypothesis: the compile model follows the repaired translator (pending-operand count, Pops before "
         "the jump of break/continue, 0c43abd) and C02_compile_correct_F0 / _program hold for every F0 program; outside F0 "
         "(for loops, calls, tuples, match) the same behaviour is covered by the end-to-end tie only",
